@@ -310,17 +310,20 @@ func isRangeIndex(v ssa.Value) bool {
 		return false
 	}
 	phi, ok := bo.X.(*ssa.Phi)
-	if !ok || len(phi.Edges) != 2 {
+	if !ok || len(phi.Edges) < 2 {
 		return false
 	}
 	hasInit, hasSelf := false, false
 	for _, e := range phi.Edges {
 		if k, ok := constInt(e); ok && k == -1 {
 			hasInit = true
+			continue
 		}
 		if e == ssa.Value(bo) {
 			hasSelf = true
+			continue
 		}
+		return false
 	}
 	return hasInit && hasSelf
 }
